@@ -1,4 +1,118 @@
-use crate::{ctx::CaseOut, Params};
-pub fn case(_idx: u64, _seed: u64, _p: &Params, o: &mut CaseOut) {
-    o.skipped = true;
+//! C10 — Johnson75 enumerates every elementary circuit exactly once.
+
+use crate::ctx::CaseOut;
+use crate::gen;
+use crate::model::Model;
+use crate::reprs::*;
+use crate::rng::{Fp, Rng};
+use crate::Params;
+use graaf::*;
+use std::collections::BTreeSet;
+
+/// All digraphs of order <= 4: 1 + 4 + 64 + 4096.
+pub const EXHAUSTIVE_LE4: u64 = 1 + 4 + 64 + 4096;
+
+pub fn decode(n: usize, mask: u64) -> Model {
+    let mut m = Model::new(n);
+    let mut bit = 0;
+    for u in 0..n {
+        for v in 0..n {
+            if u != v {
+                if mask >> bit & 1 == 1 {
+                    m.add(u, v, 1);
+                }
+                bit += 1;
+            }
+        }
+    }
+    m
+}
+
+fn blocked_family(r: &mut Rng, n: usize) -> Model {
+    // a long path from 0 with many dead-end branches and a few arcs back to
+    // low vertices: vertices get blocked, then unblocked through B-lists
+    let mut m = Model::new(n);
+    for u in 0..n - 1 {
+        m.add(u, u + 1, 1);
+    }
+    for _ in 0..r.range(1, n) {
+        let u = r.below(n);
+        let v = r.below(n);
+        if u != v {
+            m.add(u, v, 1);
+        }
+    }
+    if n >= 3 {
+        m.add(n - 1, r.below(n - 1), 1);
+    }
+    m
+}
+
+pub fn check(d: &AdjacencyMap, m: &Model, o: &mut CaseOut) -> usize {
+    let got: Vec<Vec<usize>> = Johnson75::new(d).circuits();
+    let want = m.circuits();
+    let set: BTreeSet<Vec<usize>> = got.iter().cloned().collect();
+    o.check(set.len() == got.len(), "circuit-returned-twice", || format!("{got:?}"));
+    for c in &got {
+        let distinct: BTreeSet<usize> = c.iter().copied().collect();
+        let ok = c.len() >= 2
+            && distinct.len() == c.len()
+            && c.windows(2).all(|p| m.has(p[0], p[1]))
+            && m.has(*c.last().unwrap(), c[0])
+            && c[0] == *distinct.iter().next().unwrap();
+        o.check(ok, "not-an-elementary-circuit-from-its-smallest-vertex", || format!("{c:?}"));
+    }
+    let missing: Vec<&Vec<usize>> = want.difference(&set).collect();
+    o.check(missing.is_empty(), "circuit-missing", || format!("missing {missing:?}; returned {} of {}", got.len(), want.len()));
+    let extra: Vec<&Vec<usize>> = set.difference(&want).collect();
+    o.check(extra.is_empty(), "circuit-extra", || format!("extra {extra:?}"));
+    want.len()
+}
+
+pub fn case(idx: u64, seed: u64, p: &Params, o: &mut CaseOut) {
+    let mode = p.str("mode", "mixed");
+    let mut r = Rng::for_case(10, seed, idx);
+    let (m, fam): (Model, &'static str) = if mode == "ex5" {
+        (decode(5, idx), "all_order_5")
+    } else if idx < EXHAUSTIVE_LE4 {
+        let (n, mask) = match idx {
+            0 => (1, 0),
+            1..=4 => (2, idx - 1),
+            5..=68 => (3, idx - 5),
+            _ => (4, idx - 69),
+        };
+        (decode(n, mask), "all_order_le_4")
+    } else {
+        match r.below(10) {
+            0..=3 => (decode(5, r.next() & ((1 << 20) - 1)), "order_5_sampled"),
+            4..=5 => {
+                let n = r.range(4, p.usize("max_order", 9));
+                (blocked_family(&mut r, n), "blocked_unblocked")
+            }
+            6 => {
+                let n = r.range(2, 7);
+                let f = *r.pick(&[2usize, 5, 7, 8, 9, 14, 15]);
+                (gen::family(&mut r, f, n), "structured")
+            }
+            _ => {
+                let n = r.range(6, p.usize("max_order", 9).max(6));
+                let dens = *r.pick(&[0.1, 0.2, 0.3, 0.4, 0.5]);
+                (gen::random_arcs(&mut r, n, dens), "random_6_to_9")
+            }
+        }
+    };
+    let d = if r.chance(0.5) { AdjacencyMap::build(&m) } else { AdjacencyMap::build_alt(&m) };
+    let k = check(&d, &m, o);
+    let want = m.circuits();
+    let shared = want.iter().any(|a| want.iter().any(|b| a != b && a.iter().any(|x| b.contains(x))));
+    let mut fp = Fp::new();
+    m.fingerprint(&mut fp);
+    o.fp = fp.0;
+    o.nontrivial = k >= 2 && shared;
+    o.bump(fam);
+    o.bumpn("order", m.n());
+    o.bumpn("log2(circuits+1)", (64 - (k as u64 + 1).leading_zeros() - 1) as usize);
+    if o.want_desc {
+        o.desc = format!("AdjacencyMap family={fam} {} ({k} circuits)", m.describe());
+    }
 }
